@@ -53,6 +53,7 @@ THEOREMS = [
     _T("counter_nuc_stats", "on-grid t: sigmaCounter(t,0) on the stats path = #{t_nuc <= t} = the states count"),
     _T("counter_sol_stats_counterexample", "REFUTED 'sigmaCounter(t) counts the vials solidified at t' on the stats path: it "
        "compares the solidification DURATION with clock time (K4)", "counterexample"),
+    _T("hyp_jump_of_valid", "the hypothesis 'positive initial ice' holds for every physically valid constant set (both formulations)"),
     _T("nonvacuous", "hypotheses are satisfiable (a concrete run that nucleates and crosses the threshold)", "nonvacuity"),
 ]
 TRUSTED = [
